@@ -114,6 +114,33 @@ def _is_batch_param(ctx: Context, wrapper: FuncInfo, e: Optional[ast.expr], at) 
     raise AnalysisError(f"C13.a: cannot decide whether `{unparse(rx)[:60]}` is the batch handed to {wrapper.short}")
 
 
+def _is_rowwise_call(ctx: Context, wrapper: FuncInfo, c: ast.Call, parents) -> bool:
+    """`f(xi)` with the likelihood as the callee and `xi` the variable of an enclosing comprehension / for loop that runs
+    over the wrapper's batch: the point-by-point evaluation written out -- the same thing as `map(f, x)`, not a
+    whole-batch call with a wrong argument."""
+    if not (_is_user_like_ref(c.func) and len(c.args) == 1 and not c.keywords and isinstance(c.args[0], ast.Name)):
+        return False
+    v = c.args[0].id
+    flow = flow_of(wrapper.node)
+    at = flow.node_containing(c)
+    q = parents.get(id(c))
+    while q is not None:
+        gens = q.generators if isinstance(q, (ast.ListComp, ast.GeneratorExp, ast.SetComp)) else []
+        for g in gens:
+            if isinstance(g.target, ast.Name) and g.target.id == v and not g.ifs:
+                try:
+                    return _is_batch_param(ctx, wrapper, g.iter, at)
+                except AnalysisError:
+                    return False
+        if isinstance(q, ast.For) and isinstance(q.target, ast.Name) and q.target.id == v and any(c is y for b in q.body for y in ast.walk(b)):
+            try:
+                return _is_batch_param(ctx, wrapper, q.iter, flow.node_containing(q.iter) or at)
+            except AnalysisError:
+                return False
+        q = parents.get(id(q))
+    return False
+
+
 def rule_a(ctx: Context, R: Reporter, wrapper: FuncInfo, disp: FuncInfo):
     flow = flow_of(disp.node)
     rets = [n for n in flow.cfg.stmt_nodes() if n.kind == "stmt" and isinstance(n.stmt, ast.Return) and n.stmt.value is not None]
@@ -201,6 +228,8 @@ def rule_a(ctx: Context, R: Reporter, wrapper: FuncInfo, disp: FuncInfo):
                     + f") and is not wrapped in list(...): {bad_use} -- TypeError / empty second pass for that evaluation mode only", key=f"materialised:{norm_text(c.func)[:40]}")
     # direct (vectorised) call: on the batch itself
     for c in calls_in(wrapper.node):
+        if _is_user_like_ref(c.func) and _is_rowwise_call(ctx, wrapper, c, parents):
+            continue  # point-by-point form: checked with the map sites below
         if _is_user_like_ref(c.func):
             a0 = c.args[0] if c.args else None
             wflow = flow_of(wrapper.node)
@@ -224,7 +253,7 @@ def rule_a(ctx: Context, R: Reporter, wrapper: FuncInfo, disp: FuncInfo):
         nd_ = flow_of(wrapper.node).node_containing(c)
         if nd_ is None:
             continue
-        if any(_is_user_like_ref(a) for a in c.args):
+        if any(_is_user_like_ref(a) for a in c.args) or _is_rowwise_call(ctx, wrapper, c, parents):
             fs = _facts(nd_)
             ok = any(txt.endswith("config.vectorize") and p is False for (txt, p) in fs)
             R.check("C13.a", "pointwise map sites are reached only when `vectorize` is false", ok, wrapper, c,
@@ -299,10 +328,28 @@ def rule_c(ctx: Context, R: Reporter, wrapper: FuncInfo):
     flow = flow_of(wrapper.node)
     cfg = flow.cfg
     eval_nodes = set()
+    per_head: Dict[int, List[int]] = {}
+    parents_c = {}
+    for x_ in ast.walk(wrapper.node):
+        for ch_ in ast.iter_child_nodes(x_):
+            parents_c[id(ch_)] = x_
     for nd in cfg.stmt_nodes():
         for c in calls_in_node(nd):
             if _is_user_like_ref(c.func) or any(_is_user_like_ref(a) for a in c.args):
+                # the point-by-point evaluation written as an explicit loop over the batch is one dispatch: it is counted
+                # at the loop head (every path through the loop, zero rows included), not once per trip through the body
+                if _is_user_like_ref(c.func) and nd.loops and _is_rowwise_call(ctx, wrapper, c, parents_c):
+                    head = cfg.nodes[nd.loops[-1]]
+                    if head.kind == "for" and isinstance(head.stmt.target, ast.Name) and c.args and isinstance(c.args[0], ast.Name) and head.stmt.target.id == c.args[0].id:
+                        per_head.setdefault(head.id, []).append(nd.id)
+                        continue
                 eval_nodes.add(nd.id)
+    for hid, body_nodes in per_head.items():
+        others = [n_ for n_ in eval_nodes if hid in cfg.nodes[n_].loops]
+        if len(body_nodes) == 1 and not others:
+            eval_nodes.add(hid)  # exactly one evaluation per row: the loop is the dispatch
+        else:
+            eval_nodes.update(body_nodes)  # several evaluations per row: each one counts on the path through the body
     rets = [n for n in cfg.stmt_nodes() if n.kind == "stmt" and isinstance(n.stmt, ast.Return)]
     paths = cfg.acyclic_paths(cfg.entry.id, cfg.exit.id)
     counts = set()
@@ -696,6 +743,13 @@ def variants():
         Variant("a-shuffled-pool-batch", "bad", replace_stmt(core, "SamplerCore._log_like", "results = list(self._get_distribute_func()(self.config.log_likelihood, x))", "order = np.random.permutation(len(x))\nshuf = list(self._get_distribute_func()(self.config.log_likelihood, x[order]))\nresults = [None] * len(shuf)\nfor pos, j in enumerate(order):\n    results[j] = shuf[pos]"), ["C13.a"], quick=True),
         Variant("a-dedup-batch", "bad", replace_stmt(core, "SamplerCore._log_like", "results = list(map(self.config.log_likelihood, x))", "pts, inv = np.unique(x, axis=0, return_inverse=True)\nres0 = list(map(self.config.log_likelihood, pts))\nresults = [res0[i] for i in inv]"), ["C13.a"]),
         Variant("a-asarray-batch-benign", "benign", replace_stmt(core, "SamplerCore._log_like", "results = list(map(self.config.log_likelihood, x))", "xs = np.asarray(x)\nresults = list(map(self.config.log_likelihood, xs))")),
+        # the point-by-point evaluation written out as a comprehension / loop is the same thing as map(f, x)
+        Variant("a-benign-rowwise-comprehension", "benign", replace_stmt(core, "SamplerCore._log_like", "results = list(map(self.config.log_likelihood, x))", "results = [self.config.log_likelihood(xi) for xi in x]"), quick=True),
+        Variant("a-benign-rowwise-loop", "benign", replace_stmt(core, "SamplerCore._log_like", "results = list(map(self.config.log_likelihood, x))", "results = []\nfor xi in x:\n    results.append(self.config.log_likelihood(xi))")),
+        Variant("c-rowwise-loop-with-probe-call", "bad", replace_stmt(core, "SamplerCore._log_like", "results = list(map(self.config.log_likelihood, x))", "self.config.log_likelihood(x[0])\nresults = []\nfor xi in x:\n    results.append(self.config.log_likelihood(xi))"), ["C13.c"]),
+        Variant("c-rowwise-loop-evaluates-twice-per-row", "bad", replace_stmt(core, "SamplerCore._log_like", "results = list(map(self.config.log_likelihood, x))", "results = []\nfor xi in x:\n    self.config.log_likelihood(xi)\n    results.append(self.config.log_likelihood(xi))"), ["C13.c"]),
+        Variant("a-rowwise-comprehension-on-vectorised-path", "bad", replace_stmt(core, "SamplerCore._log_like", "return (self.config.log_likelihood(x), None)", "return (np.array([self.config.log_likelihood(xi) for xi in x]), None)"), ["C13.a"], quick=True),
+        Variant("a-rowwise-comprehension-over-reordered-batch", "bad", replace_stmt(core, "SamplerCore._log_like", "results = list(map(self.config.log_likelihood, x))", "results = [self.config.log_likelihood(xi) for xi in x[::-1]]"), ["C13.a"], quick=True),
         Variant("a-pool-before-vectorize", "bad", chain(replace_expr(core, "SamplerCore._log_like", "self.config.vectorize", "self.config.pool is not None and not self.config.vectorize"), ), ["C13.a"]),
         Variant("a-imap-unordered", "bad", replace_expr(core, "SamplerCore._get_distribute_func", "self.config.pool.map", "self.config.pool.imap_unordered"), ["C13.a"], quick=True),
         Variant("a-pool-imap-unordered", "bad", replace_expr(core, "SamplerCore._get_distribute_func", "pool.map", "pool.imap_unordered"), ["C13.a"]),
